@@ -33,6 +33,8 @@ Rule(cf, r, l) ==
          ELSE IF Layouts(B, Cells(cf), cf.chars) = {} THEN "LayoutOK"
          ELSE IF {p \in Layouts(B, Cells(cf), cf.chars) : FilledOK(p[1], Cells(cf), cf.haslen, cf.len, r.pos)} = {} THEN "FilledOK"
          ELSE IF Good(cf, r, B) = {} THEN "HeadOK"
+         (* "equal to the cell count ... only then": before the end the bar never shows every cell filled (whatever glyph the partial cell is drawn with) *)
+         ELSE IF cf.haslen /\ cf.len > 0 /\ r.pos < cf.len /\ Len(B) > 0 /\ (\A j \in 1..Len(B) : B[j] = cf.chars[1]) THEN "FullOnlyWhenDone"
          ELSE IF Feasible(cf, r, B, l) = {} THEN "Monotone"
          ELSE ""
 NewLo(cf, r, l) == IF r.panic = "" /\ r.nstr >= 1 /\ RestFits(cf) THEN SetMin(Feasible(cf, r, Bar(cf, r.out), l)) ELSE l
